@@ -186,6 +186,10 @@ LawChecks(r, st) ==
          /\ SharedNamesAgreeInTree(st.heap[r.r]) ->
          {<<"C06", "concat_keeps_child_attribution">>,
           <<"C06", "concat_lines_first_mapped_piece">>}
+         \cup (IF \E k \in 1..Len(r.children) :
+                    LET t == st.heap[r.children[k]]
+                    IN IsMapLeaf(t) /\ MapFitsText(LeafMap(t), t.b)
+                 THEN {<<"C08", "via_enclosing_map">>} ELSE {})
     [] r.law = "replace_inner" /\ AsciiConsistent(st.heap[r.r]) ->
          {<<"C06", "replace_keeps_inner_attribution">>}
     [] OTHER -> {}
@@ -216,12 +220,71 @@ LawHolds(c, r, st) ==
            StreamChunks(st.obs[<<r.inner, "stream", TRUE, FALSE>>].ev),
            StreamChunks(st.obs[<<r.r, "stream", TRUE, FALSE>>].ev),
            st.heap[r.r].repls)
+    [] c = <<"C08", "via_enclosing_map">> ->
+         LET n == Len(r.children)
+             texts == [k \in 1..n |-> Seen(st, r.children[k], "source").t]
+             whole == ByteAttrsOfOptMap(SeenMap(st, r.r, TRUE), Concat(texts))
+             offs == ChildOffsets(texts)
+         IN \A k \in 1..n :
+              LET t == st.heap[r.children[k]]
+              IN (IsMapLeaf(t) /\ MapFitsText(LeafMap(t), t.b)) =>
+                   LET given == ByteAttrsOfMap(LeafMap(t), t.b)
+                   IN \A i \in 1..Len(t.b) : Full(whole[offs[k] + i]) = Full(given[i])
     [] c = <<"C06", "concat_lines_first_mapped_piece">> ->
          LET n == Len(r.children)
              texts == [k \in 1..n |-> Seen(st, r.children[k], "source").t]
              maps == [k \in 1..n |-> SeenMap(st, r.children[k], FALSE)]
          IN LineAttrsOfOptMap(SeenMap(st, r.r, FALSE), Concat(texts))
               = ExpectedConcatLines(maps, texts)
+
+-----------------------------------------------------------------------------
+(* C04: the map points to where the text really came from                   *)
+C04Holds(c, r, t) ==
+  LET text == TextOf(t)
+      P == Prov(t)
+      pt == PosTable(text)
+  IN
+  CASE c = <<"C04", "no_map_means_no_original">> ->
+         \A i \in 1..Len(P) : P[i].k = "orig" => (text[i] = NL /\ P[i].c = 0)
+    [] c = <<"C04", "segments_point_to_origin">> ->
+         LET m == MapOf(r)
+             segs == DecodeMappings(m.m)
+         IN \A j \in 1..Len(segs) :
+              segs[j].si >= 0 =>
+                \E i \in 1..Len(text) :
+                  /\ pt[i] = <<segs[j].gl, segs[j].gc>>
+                  /\ \/ P[i].k = "repl"
+                     \/ /\ P[i].k = "orig"
+                        /\ <<P[i].f, P[i].l, P[i].c>>
+                             = <<FileOf(m, segs[j].si), segs[j].ol, segs[j].oc>>
+    [] c = <<"C04", "originals_covered">> ->
+         LET A == ByteAttrsOfMap(MapOf(r), text)
+         IN \A i \in 1..Len(text) :
+              (P[i].k = "orig" /\ ~(text[i] = NL /\ P[i].c = 0)) =>
+                (A[i].m /\ A[i].f = P[i].f /\ A[i].l = P[i].l /\ A[i].c <= P[i].c)
+    [] c = <<"C04", "raw_unmapped">> ->
+         LET A == ByteAttrsOfMap(MapOf(r), text)
+         IN \A i \in 1..Len(text) : P[i].k = "raw" => ~A[i].m
+    [] c = <<"C04", "statement_starts_exact">> ->
+         LET A == ByteAttrsOfMap(MapOf(r), text)
+             S == StmtFlags(t)
+         IN \A i \in 1..Len(text) :
+              (S[i] /\ P[i].k = "orig") =>
+                (A[i].m /\ <<A[i].f, A[i].l, A[i].c>> = <<P[i].f, P[i].l, P[i].c>>)
+    [] c = <<"C04", "sources_table">> ->
+         LET m == MapOf(r)
+             entries == TreeFileEntries(t)
+         IN /\ \A i \in 1..Len(m.sources) : \A j \in 1..Len(m.sources) :
+                 m.sources[i] = m.sources[j] => i = j
+            /\ \A i \in 1..Len(m.sources) :
+                 \E e \in entries :
+                   e[1] = FileOf(m, i - 1) /\ e[3] = ContentOf(m, i - 1)
+    [] c = <<"C04", "lines_first_original">> ->
+         LET LA == LineAttrsOfMap(MapOf(r), text)
+         IN \A ln \in 1..NumLines(text) :
+              LET idx == {i \in 1..Len(text) : pt[i][1] = ln /\ P[i].k = "orig"}
+              IN IF idx = {} THEN ~LA[ln][1]
+                 ELSE LA[ln] = <<TRUE, P[Min(idx)].f, P[Min(idx)].l>>
 
 -----------------------------------------------------------------------------
 (* which predicates apply to a record                                       *)
@@ -253,6 +316,15 @@ Checks(r, st) ==
               \cup (IF dom THEN {<<"C02", "end_position">>} ELSE {})
               \cup (IF dom /\ r.final THEN {<<"C02", "final_positions_in_text">>} ELSE {})
               \cup (IF dom THEN {<<"C11", "announce_before_use">>} ELSE {})
+              \cup (LET t == TreeOf(r, st)
+                    IN IF IsMapLeaf(t) /\ IsAscii(t.b) /\ MapFitsText(LeafMap(t), t.b)
+                         THEN {<<"C08", "declared_tables">>,
+                               IF r.columns
+                                 THEN (IF r.final THEN <<"C08", "final_columns">>
+                                                  ELSE <<"C08", "stream_columns">>)
+                                 ELSE (IF r.final THEN <<"C08", "final_lines">>
+                                                  ELSE <<"C08", "stream_lines">>)}
+                         ELSE {})
       [] r.op = "map" ->
            LET dom == AsciiConsistent(TreeOf(r, st))
                seen == <<r.r, "stream", r.columns, FALSE>> \in DOMAIN st.obs
@@ -266,6 +338,19 @@ Checks(r, st) ==
                             IF r.columns THEN <<"C03", "map_equals_stream_columns">>
                                          ELSE <<"C03", "map_equals_stream_lines">>}
                       ELSE {})
+              \cup (IF r.out.map # <<>> /\ C04Domain(TreeOf(r, st))
+                      THEN (IF r.columns
+                              THEN {<<"C04", "segments_point_to_origin">>,
+                                    <<"C04", "originals_covered">>,
+                                    <<"C04", "raw_unmapped">>,
+                                    <<"C04", "statement_starts_exact">>,
+                                    <<"C04", "sources_table">>}
+                              ELSE (IF "replace" \notin Kinds(TreeOf(r, st))
+                                      THEN {<<"C04", "lines_first_original">>} ELSE {})
+                                   \cup {<<"C04", "sources_table">>})
+                      ELSE {})
+              \cup (IF r.out.map = <<>> /\ C04Domain(TreeOf(r, st))
+                      THEN {<<"C04", "no_map_means_no_original">>} ELSE {})
       [] r.op = "law" -> LawChecks(r, st)
       [] OTHER -> {}
 
@@ -304,6 +389,34 @@ Holds(c, r, st) ==
              ps == CharPositions(TextOf(t))
          IN \A i \in 1..Len(cs) : <<cs[i].gl, cs[i].gc>> \in ps
     [] c = <<"C11", "announce_before_use">> -> AnnounceOK(r.out.ev)
+    [] c = <<"C08", "stream_columns">> ->
+         LET chunks == StreamChunks(r.out.ev)
+         IN /\ StreamText(chunks) = t.b
+            /\ SameFull(ByteAttrsOfStream(chunks), ByteAttrsOfMap(LeafMap(t), t.b))
+    [] c = <<"C08", "stream_lines">> ->
+         LET chunks == StreamChunks(r.out.ev)
+         IN /\ StreamText(chunks) = t.b
+            /\ LineAttrsOfStream(chunks) = LineAttrsOfMap(LeafMap(t), t.b)
+            /\ NoNames(chunks)
+    [] c = <<"C08", "final_columns">> ->
+         LET chunks == StreamChunks(r.out.ev)
+         IN SameFull(ByteAttrsOfEvents(chunks, t.b), ByteAttrsOfMap(LeafMap(t), t.b))
+    [] c = <<"C08", "final_lines">> ->
+         LET chunks == StreamChunks(r.out.ev)
+         IN /\ LineAttrsOfEvents(chunks, t.b) = LineAttrsOfMap(LeafMap(t), t.b)
+            /\ NoNames(chunks)
+    [] c = <<"C08", "declared_tables">> ->
+         LET m == LeafMap(t)
+             tabs == StreamTables(r.out.ev)
+         IN t.b # <<>> =>
+              /\ DOMAIN tabs[1] = 0..(Len(m.sources) - 1)
+              /\ \A i \in DOMAIN tabs[1] :
+                   /\ tabs[1][i].f = FileOf(m, i)
+                   /\ tabs[1][i].hc = HasContent(m, i)
+                   /\ tabs[1][i].ct = ContentOf(m, i)
+              /\ r.columns =>
+                   /\ DOMAIN tabs[2] = 0..(Len(m.names) - 1)
+                   /\ \A i \in DOMAIN tabs[2] : tabs[2][i] = m.names[i + 1]
     [] c = <<"C11", "map_charset">> ->
          \A i \in 1..Len(MapOf(r).m) : IsMappingsChar(MapOf(r).m[i])
     [] c = <<"C11", "map_well_formed">> -> WellFormedMappings(MapOf(r).m)
@@ -327,6 +440,7 @@ Holds(c, r, st) ==
          LET chunks == StreamChunks(SeenStream(r, st).ev)
          IN LineAttrsOfOptMap(r.out.map, StreamText(chunks)) = LineAttrsOfStream(chunks)
     [] c[1] \in {"C13", "C06", "C08"} /\ r.op = "law" -> LawHolds(c, r, st)
+    [] c[1] = "C04" -> C04Holds(c, r, t)
     [] c = <<"C11", "map_indices_in_tables">> ->
          LET m == MapOf(r)
              segs == DecodeMappings(m.m)
@@ -338,13 +452,7 @@ Holds(c, r, st) ==
 (* KNOWN-FINDING line when known_findings.json lists the class returned     *)
 (* here with status "known"; the class must describe the failing shape      *)
 (* narrowly, so that any other violation is still reported.                 *)
-RECURSIVE CachedBeneathReplace(_)
-CachedBeneathReplace(t) ==
-  CASE t.k = "replace" -> "cached" \in Kinds(t.inner) \/ CachedBeneathReplace(t.inner)
-    [] t.k = "concat" ->
-         LET ch == Children(t) IN \E i \in 1..Len(ch) : CachedBeneathReplace(ch[i])
-    [] t.k \in {"cached", "box"} -> CachedBeneathReplace(t.inner)
-    [] OTHER -> FALSE
+CachedBeneathReplace(t) == CachedUnderReplace(t)
 
 (* two attribution sequences that differ at most in the original column     *)
 OnlyColumnsDiffer(as, bs) ==
